@@ -33,16 +33,12 @@ def dqnBalanced : Nat → List Call → Bool
   | d, .dqnEnd :: r => decide (0 < d) && dqnBalanced (d - 1) r
   | d, _ :: r => dqnBalanced d r
 
-/-- (c) no `processIf` call (its put-back re-creates "events pending" with no notification: see
-    `C07_counterexample_processIf_*` in `Properties/C07.lean`) -/
-def noProcessIf : List Call → Bool
-  | [] => true
-  | .processIf _ :: _ => false
-  | _ :: r => noProcessIf r
-
-/-- the hypotheses of the no-lost-wake-up theorem on a family of thread programs -/
+/-- the hypotheses of the no-lost-wake-up theorem on a family of thread programs.  `processIf` calls
+    are allowed: since `processIf` notifies after putting declined events back (`procPbReadNc`,
+    `procPbNotify`) no restriction on it is needed (see `C07_processIf_repaired` in
+    `Properties/C07.lean` for the two schedules that lost a wake-up before that repair). -/
 def WF (progs : List (List Call)) : Prop :=
-  ∀ p ∈ progs, waitsFollowed p = true ∧ dqnBalanced 0 p = true ∧ noProcessIf p = true
+  ∀ p ∈ progs, waitsFollowed p = true ∧ dqnBalanced 0 p = true
 
 instance (progs : List (List Call)) : Decidable (WF progs) := by unfold WF; exact inferInstance
 
@@ -66,19 +62,20 @@ def isWaitPc : PC → Bool
   | .woken _ _ => true
   | _ => false
 
-/-- without `processIf` only modes 0 (process) and 1 (processOne) occur and nothing is ever kept -/
-def pcModeOK : PC → Bool
-  | .procPre m => decide (m ≤ 1)
-  | .procInc m => decide (m ≤ 1)
-  | .procTake m => decide (m ≤ 1)
-  | .procLoop m _ kept _ => decide (m ≤ 1) && kept.isEmpty
-  | .procPutBack _ _ => false
-  | _ => true
-
 /-- program counters at which a thread carries an *obligation*: it will, before it can finish or
-    block, either make `queue ≠ [] ∧ nc = 0` false itself / see it false, or wake a parked waiter -/
+    block, either make `queue ≠ [] ∧ nc = 0` false itself / see it false, or wake a parked waiter.
+
+    A `processIf` thread (modes 2/3) is an obligation holder exactly after its put-back: at
+    `procPutBack` the declined events are not in the list yet (and the step needs the mutex, so no
+    waiter is between its predicate evaluation and its parking); the put-back step makes the list
+    non-empty and the thread a holder (`procPbReadNc`), like `enqSplice` does for `enqueue`.
+    `enqReadEc` / `dqnReadEc` (list read as empty, about to read `ec`) are NOT holders: they gave
+    their obligation up when they read the list empty (the condition was false at that moment);
+    if a put-back makes the list non-empty afterwards, the put-back thread is the holder. -/
 def holderPc : PC → Bool
   | .enqReadEmpty => true
+  | .procPbReadNc _ => true
+  | .procPbNotify _ => true
   | .enqReadNc => true
   | .enqNotify => true
   | .dqnReadNc => true
@@ -100,8 +97,7 @@ def holder (th : Thread) : Bool :=
 
 /-- per-thread part of the invariant -/
 def thOKW (th : Thread) : Bool :=
-  waitsFollowed th.prog && noProcessIf th.prog && pcModeOK th.pc &&
-  (!isWaitPc th.pc || headIsWait th.prog)
+  waitsFollowed th.prog && (!isWaitPc th.pc || headIsWait th.prog)
 
 /-- the part of the invariant that relates one thread to the shared variables -/
 def locOK (queue : List Nat) (nc : Nat) (qm : Option Tid) (t : Tid) (th : Thread) : Prop :=
